@@ -861,6 +861,9 @@ type c12Connect struct {
 	// the connection right after accepting it), "reply-fails" (the server cannot write its reply), "reply-fails-late"
 	// (the same, but only after the client's parallel connections have got their replies), "slow" (healthy, 10 ms latency), "reply-delayed" (healthy, the reply arrives 100 ms late)
 	Fail []string
+	// BackLeg (CDN transport only): the faults hit the connections between the CDN and ck-server instead of those
+	// between the client and the CDN
+	BackLeg bool `json:",omitempty"`
 }
 
 func c12ConnectGen(rt *rapid.T) c12Connect {
@@ -871,6 +874,9 @@ func c12ConnectGen(rt *rapid.T) c12Connect {
 	n := rapid.IntRange(1, 6).Draw(rt, "nfail")
 	for i := 0; i < n; i++ {
 		sc.Fail = append(sc.Fail, rapid.SampledFrom([]string{"", "reset", "reset", "reset-after-hello", "eof", "reply-fails", "reply-fails", "reply-fails-late", "slow", "reply-delayed", "reset-before-reply-read"}).Draw(rt, "fail"))
+	}
+	if sc.Client.Transport == "cdn" {
+		sc.BackLeg = rapid.Bool().Draw(rt, "backleg")
 	}
 	return sc
 }
@@ -980,6 +986,11 @@ func c12ConnectRun(t *testing.T, sigOnly bool) func(sc c12Connect) (vk.Result, e
 				} = &vk.Dialer{Net: cnet, Ln: srv.cliLn}
 				if strings.EqualFold(sc.Client.Transport, "cdn") {
 					cdn := &vCDN{front: vk.NewListener(), back: srv.dialer(), net: srv.net}
+					if sc.BackLeg {
+						bnet := &vk.Net{Auto: true}
+						bnet.OnLink, cnet.OnLink = cnet.OnLink, nil
+						cdn.back = &vk.Dialer{Net: bnet, Ln: srv.cliLn}
+					}
 					cdn.serve()
 					defer cdn.front.Close()
 					dialer = &vk.Dialer{Net: cnet, Ln: cdn.front}
